@@ -954,6 +954,12 @@ def hcanon(e, env=None):
         b = hcanon(e['x'], env)
         if e.get('of') in FLAT_ADTS and isinstance(b, tuple) and b and b[0] == 'field' and isinstance(b[2], str):
             return ('field', b[1], b[2] + '.' + e['name'])      # field of a flattened private sub-object
+        if isinstance(b, tuple) and b and b[0] == 'struct':
+            for fname, fv in b[2]:
+                if fname == e['name']:
+                    return fv                                   # a field of a struct value written out in the function
+        if isinstance(b, tuple) and b and b[0] == 'tuple' and str(e['name']).isdigit() and int(e['name']) < len(b[1]):
+            return b[1][int(e['name'])]
         return ('field', b, e['name'])
     if k == 'bin':
         op = {'+': 'Add', '-': 'Sub', '*': 'Mul', '/': 'Div', '%': 'Rem', '<': 'Lt', '<=': 'Le',
